@@ -49,7 +49,7 @@ fn probe(c: &mut Cl, wait: Duration) -> bool {
     false
 }
 
-pub const KINDS: &[&str] = &["close", "quit", "quitq", "mid-request", "protocol-error", "oversized", "idle-timeout", "idle-inside-first-request", "idle-inside-later-request"];
+pub const KINDS: &[&str] = &["close", "quit", "quitq", "mid-request", "protocol-error", "oversized", "idle-timeout", "idle-inside-first-request", "idle-inside-later-request", "waiting-close", "backlog-reset"];
 
 /// One case: limit L, lifecycles well beyond the limit.
 pub fn run_case(id: &str, limit: u32, rounds: usize, first_kind: usize, rng: &mut Rng, workers: usize, trace: &mut String, obs: &mut String, kinds_used: &mut HashMap<String, u64>) {
@@ -66,9 +66,11 @@ pub fn run_case(id: &str, limit: u32, rounds: usize, first_kind: usize, rng: &mu
     let mut connect = |conns: &mut HashMap<usize, Cl>, active: &mut Vec<usize>, waiting: &mut Vec<usize>, next: &mut usize, trace: &mut String| {
         let c = *next;
         *next += 1;
-        let sock = TcpStream::connect(server.addr).expect("connect");
-        sock.set_nodelay(true).unwrap();
-        conns.insert(c, Cl { sock, opaque: 0 });
+        // a refused connection (no listener any more) is a connection that is never served
+        if let Ok(sock) = TcpStream::connect_timeout(&server.addr, Duration::from_secs(2)) {
+            sock.set_nodelay(true).unwrap();
+            conns.insert(c, Cl { sock, opaque: 0 });
+        }
         let _ = writeln!(trace, "CONN {}", c);
         if (active.len() as u32) < limit && waiting.is_empty() {
             active.push(c);
@@ -83,7 +85,10 @@ pub fn run_case(id: &str, limit: u32, rounds: usize, first_kind: usize, rng: &mu
         if surprised.get() {
             return;
         }
-        let served = probe(conns.get_mut(&c).unwrap(), if expect { SERVED_DEADLINE } else { UNSERVED_WAIT });
+        let served = match conns.get_mut(&c) {
+            Some(cl) => probe(cl, if expect { SERVED_DEADLINE } else { UNSERVED_WAIT }),
+            None => false,
+        };
         let _ = writeln!(trace, "PROBE {}", c);
         let _ = writeln!(obs, "SERVED {} {}", c, if served { 1 } else { 0 });
         if served != expect {
@@ -104,10 +109,58 @@ pub fn run_case(id: &str, limit: u32, rounds: usize, first_kind: usize, rng: &mu
             do_probe(&mut conns, c, false, trace, obs);
         }
         // end one served connection in a random way
-        let victim = active[rng.below(active.len() as u64) as usize];
+        if active.iter().any(|c| !conns.contains_key(c)) {
+            break; // it could not even connect: reported by its probe
+        }
         // every way of ending is visited in turn (the idle timeouts cost seconds of wall time each)
-        let kind = (first_kind + round) % KINDS.len();
+        let mut kind = (first_kind + round) % KINDS.len();
         *kinds_used.entry(KINDS[kind].to_string()).or_insert(0) += 1;
+        if kind >= 9 {
+            // a connection that is not served yet goes away: the one the accept loop holds
+            // while it waits for a slot closes (9), or one still in the listen backlog is
+            // reset (10). It never counted; the others are served in order as slots free.
+            // first let the queue drain, so that the connections that go away are ones that
+            // have never sent a byte (a probe is a request waiting in their socket)
+            while !waiting.is_empty() {
+                let a = active[0];
+                if let Some(cl) = conns.remove(&a) {
+                    let _ = cl.sock.shutdown(Shutdown::Both);
+                }
+                let _ = writeln!(trace, "END {} 0", a);
+                active.retain(|c| *c != a);
+                let w = waiting.remove(0);
+                active.push(w);
+                for c in active.clone() {
+                    do_probe(&mut conns, c, true, trace, obs);
+                }
+            }
+            for _ in 0..3 {
+                connect(&mut conns, &mut active, &mut waiting, &mut next, trace);
+            }
+            std::thread::sleep(Duration::from_millis(30));
+            // only the middle one is probed: the head and the tail stay silent
+            if waiting.len() == 3 {
+                do_probe(&mut conns, waiting[1], false, trace, obs);
+            }
+            let w = if kind == 9 { waiting[0] } else { *waiting.last().unwrap() };
+            if let Some(cl) = conns.remove(&w) {
+                if kind == 10 {
+                    abort(&cl.sock);
+                } else {
+                    let _ = cl.sock.shutdown(Shutdown::Both);
+                }
+                drop(cl);
+            }
+            std::thread::sleep(Duration::from_millis(30));
+            let _ = writeln!(trace, "END {} {}", w, kind);
+            waiting.retain(|c| *c != w);
+            // then a served one closes, and the queue moves up
+            kind = 0;
+        }
+        if surprised.get() || active.iter().any(|c| !conns.contains_key(c)) {
+            break;
+        }
+        let victim = active[rng.below(active.len() as u64) as usize];
         {
             let cl = conns.get_mut(&victim).unwrap();
             match kind {
@@ -190,7 +243,9 @@ pub fn run_case(id: &str, limit: u32, rounds: usize, first_kind: usize, rng: &mu
     }
     // finally: exactly `limit` fresh connections can be served, and no more
     for c in active.clone() {
-        let _ = conns.get_mut(&c).unwrap().sock.shutdown(Shutdown::Both);
+        if let Some(cl) = conns.get_mut(&c) {
+            let _ = cl.sock.shutdown(Shutdown::Both);
+        }
         let _ = writeln!(trace, "END {} 0", c);
         conns.remove(&c);
     }
